@@ -19,7 +19,7 @@ def maxLen : Nat := 4294967296
 
 theorem kitRecv_one (w : Bytes) (hw : w.length < maxLen) :
     MsgData.deserialize (kitSend w) = .ok ⟨0, w⟩ :=
-  Lnc.Props.C19.msgdata_roundtrip ⟨0, []⟩ 0 w hw (Or.inl rfl)
+  Lnc.Props.C19.msgdata_roundtrip ⟨0, []⟩ 0 w hw
 
 theorem kitRecvAll_cons (m w : Bytes) (v : UInt8) (ms : List Bytes) (hm : MsgData.deserialize m = .ok ⟨v, w⟩) :
     kitRecvAll (m :: ms) = w :: kitRecvAll ms := by
